@@ -35,6 +35,8 @@ fn main() {
         "C12" => main_for::<props::c12::P>(rest),
         "C15" => main_for::<props::c15::P>(rest),
         "C09" => main_for::<props::c09::P>(rest),
+        "C11" => main_for::<props::c11::P>(rest),
+        "C10" => main_for::<props::c10::P>(rest),
         "C07" => main_for::<props::c07::P>(rest),
         "C08" => main_for::<props::c08::P>(rest),
         "C13" => main_for::<props::c13::P>(rest),
